@@ -8,7 +8,9 @@ from harness import core, sexp
 
 SEGS = ['a', 'b', 'x', '1', '?', '#', '%', '%41', 'b c', ';p=1', 'a&b', 'k=v', 'é', '+', 'q?r#s', '%2F', '~_.-', '"<>', '中', "'"]
 QUERIES = ['', 'q=1', 'a=1&b=2', 'x=%41%2f', 'p=%zz&a=+', 'é=ü', 'raw=\xff\xfe', 'k;v=1', 'a b', 'u=http://x/?y#z'.replace('#', '%23'),
-           "s=:/?[]@!$&'()*+,;=", 'w="<>\\^`{|}']
+           "s=:/?[]@!$&'()*+,;=", 'w="<>\\^`{|}',
+           # question marks that belong to the query (a search phrase, a JSONP placeholder)
+           'q=what?', 'callback=?', '?', 'a=1&b=??']
 METHODS = ['GET', 'HEAD', 'POST', 'PUT', 'DELETE', 'OPTIONS', 'PATCH', 'get', 'FOO']
 ROUTES = [  # (pattern, number of leading literal segments, binding kind)
     ('/s/t/', 'static'), ('/s/t', 'static'), ('/i/<x>/', 'single'), ('/i/<x>', 'single'),
@@ -60,7 +62,12 @@ def build(case):
         inner.add(sh, inherit_slashes=False)
     app = inner
     if e['depth'] >= 1:
-        app = Application([SubApplication(e['prefix'], inner, inherit_slashes=e['outer_inherit'])], slash_mode=case['outer_mode'])
+        if len(e['prefix']) % 2:
+            # the other documented spelling: the option is given to add() together with a plain (prefix, application) pair
+            app = Application([], slash_mode=case['outer_mode'])
+            app.add((e['prefix'], inner), inherit_slashes=e['outer_inherit'])
+        else:
+            app = Application([SubApplication(e['prefix'], inner, inherit_slashes=e['outer_inherit'])], slash_mode=case['outer_mode'])
     return app, got
 
 
@@ -273,8 +280,8 @@ def run(rep, b, tier, seed, only_cases=None):
                 continue
             if r['location'] and r['status'] in (301, 302, 303, 307, 308):
                 want = m[2].decode('latin-1')
-                if want.endswith('?'):
-                    want = want[:-1]
+                if want.endswith('?') and not c['requests'][k][2]:
+                    want = want[:-1]          # no query at all: the bare '?' the model appends is dropped by werkzeug
                 if r['location'] != want:
                     ndiff += 1
                     if ndiff <= 5:
